@@ -17,8 +17,14 @@ KNOWN = {
 }
 
 
-def config_text(p, nb):
+def config_text(p, nb, alt=0):
+    """alt = 1: the variable is periodic with a period (40 bins) far larger than anything explored, the grid covers [0, nb) only
+    (not periodic); alt = 2: same variable, but the configured boundaries span exactly the period (a periodic grid) - used for the
+    module that RESUMES from a state written under alt = 1: the grids of the state, with their own boundaries and their own
+    (non-)periodicity, must replace the configured ones."""
     cv = ["colvar {", "  name z", "  width 1.0", "  lowerBoundary 0.0", "  upperBoundary %d.0" % nb]
+    if alt == 2:
+        cv = ["colvar {", "  name z", "  width 1.0", "  lowerBoundary -20.0", "  upperBoundary 20.0"]
     if p["hardLower"]:
         cv.append("  hardLowerBoundary on")
     if p.get("expand"):
@@ -26,6 +32,8 @@ def config_text(p, nb):
     cv += ["  distanceZ {", "    main { atomNumbers 1 }", "    ref { dummyAtom (0,0,0) }", "    axis (0,0,1)"]
     if p["periodic"]:
         cv += ["    period %d.0" % nb, "    wrapAround %s" % (nb / 2.0)]
+    elif alt:
+        cv += ["    period 40.0", "    wrapAround 0.0"]
     cv += ["  }", "}"]
     m = ["metadynamics {", "  colvars z", "  hillWeight 1.0", "  newHillFrequency %d" % p["hillFreq"]]
     m.append(("  hillWidth " + HW_WIDE) if p["wide"] else ("  gaussianSigmas " + SIG_NARROW))
@@ -42,14 +50,15 @@ def ffac(p):
 
 
 class Runner:
-    def __init__(self, drv, p, nb):
+    def __init__(self, drv, p, nb, alt=False):
         self.d, self.p, self.nb = drv, p, nb
-        self.cfg = config_text(p, nb)
+        self.alt = bool(alt) and not p["periodic"] and p["useGrids"] and not p.get("expand") and not p["hardLower"]
+        self.cfg = config_text(p, nb, 1 if self.alt else 0)
         self.start()
 
     def start(self, state=None):
         self.d.cmd(op="new", natoms=2)
-        r = self.d.cmd(op="config", text=self.cfg)
+        r = self.d.cmd(op="config", text=(config_text(self.p, self.nb, 2) if (self.alt and state is not None) else self.cfg))
         if r.get("op") == "died" or r.get("rc") != 0:
             raise vlib.MachineryError("C05 config rejected: %s" % r)
         if state is not None:
@@ -72,15 +81,16 @@ class Runner:
         return {"it": r["it"], "E": r["E"], "F": r["cvs"]["z"]["fa"][0], "fat": r["fat"].get("0", [0, 0, 0])[2], "err": r["err"]}
 
 
-def replay_chunk(args):
+def replay_chunk(args, force_alt=False):
     behs, seed = args
+    rng = random.Random(seed + 55)
     d = vlib.Drv()
     out = []
     try:
         for beh in behs:
             p, nb = beh["p"], beh["nb"]
             try:
-                run = Runner(d, p, nb)
+                run = Runner(d, p, nb, alt=((force_alt or rng.random() < 0.4) and any(a["a"] == "Restart" for a in beh["acts"])))
             except vlib.MachineryError as e:
                 out.append(("machinery", str(e), beh))
                 continue
